@@ -248,6 +248,26 @@ Proof.
   induction l as [|x l IH]; intros [|n] [|k] d H; cbn; auto; try lia. apply IH. lia.
 Qed.
 
+Lemma chk_allfalse : forall cf oc, (forall x, cst_true cf x = false) -> forall ss, all_stmts (chk cf oc) ss = true.
+Proof.
+  intros cf oc Hf.
+  assert (H : forall s, all_stmt (chk cf oc) s = true).
+  { induction s using stmt_ind2; try reflexivity.
+    - cbn. rewrite Hf. reflexivity.
+    - cbn. rewrite Hf. reflexivity.
+    - cbn. rewrite andb_true_r. apply andb_true_iff. split; [destruct d; [rewrite Hf|]; reflexivity|].
+      apply forallb_forall. intros [i y] _. cbn. rewrite Hf. apply orb_true_r.
+    - rewrite Forall_forall in H, H0.
+      apply all_stmt_if_intro; [reflexivity| |]; apply forallb_forall; intros s Hs; auto.
+    - rewrite Forall_forall in H. apply all_stmt_for_intro; [reflexivity|]. apply forallb_forall; intros s Hs; auto. }
+  intros ss. apply forallb_forall. intros s _. apply H.
+Qed.
+
+Lemma cst_true_allfalse : forall (names : list name) (n : nat) x, cst_true (combine names (repeat false n)) x = false.
+Proof.
+  induction names as [|y names IH]; intros [|n] x; cbn; auto. rewrite andb_false_r. cbn. apply IH.
+Qed.
+
 Theorem analyse_consistent : forall funs j, j < length funs ->
   all_stmts (stmt_cons_b (analyse funs) funs (Some j)) (fbody (fn funs j)) = true.
 Proof.
@@ -256,6 +276,11 @@ Proof.
   specialize (R j fd Efd). rewrite E. set (final := rows) in *.
   assert (Efn : fn funs j = fd) by (unfold fn; apply nth_error_nth; auto).
   unfold stmt_cons_b, cst_of. rewrite Efn, R. unfold an_fun.
+  destruct (fnometa fd).
+  { apply chk_allfalse. intros x.
+    replace (map (fun _ : param => false) (fparams fd)) with (repeat false (length (fparams fd))).
+    - apply cst_true_allfalse.
+    - induction (fparams fd) as [|q l IHl]; cbn; auto. f_equal. auto. }
   set (done := firstn j final). unfold an_stmts. fold (go done j (fbody fd) (map (fun p => (pname p, true)) (fparams fd))).
   set (c0 := map (fun p => (pname p, true)) (fparams fd)).
   assert (Enames : map pname (fparams fd) = map fst (go done j (fbody fd) c0)).
@@ -269,13 +294,4 @@ Qed.
 
 (* the main program has no parameters *)
 Lemma main_consistent : forall mt funs ss, all_stmts (stmt_cons_b mt funs None) ss = true.
-Proof.
-  intros mt funs. unfold stmt_cons_b, cst_of.
-  assert (H : forall s, all_stmt (chk [] (is_const mt)) s = true).
-  { induction s using stmt_ind2; try reflexivity.
-    - cbn. destruct d; cbn; rewrite andb_true_r; apply forallb_forall; intros [i y] _; cbn; apply orb_true_r.
-    - rewrite Forall_forall in H, H0.
-      apply all_stmt_if_intro; [reflexivity| |]; apply forallb_forall; intros s Hs; auto.
-    - rewrite Forall_forall in H. apply all_stmt_for_intro; [reflexivity|]. apply forallb_forall; intros s Hs; auto. }
-  intros ss. apply forallb_forall. intros s _. apply H.
-Qed.
+Proof. intros mt funs ss. unfold stmt_cons_b, cst_of. apply chk_allfalse. reflexivity. Qed.
